@@ -1166,8 +1166,26 @@ def remove_redundant_transpose_reduce_ir(graph: ir.Graph) -> None:
             if new_axes is not None:
                 if axes_input_idx != -1:
                     new_axes_arr = np.array(new_axes, dtype=np.int64)
+                    # The initializer table is keyed by name: derive the name from
+                    # the reducer's output value (unique by SSA; node names may be
+                    # empty or repeated) and make sure nothing else carries it.
+                    axes_name = f"{_v_name(_node_output(reducer)) or reducer.name or 'reduce'}_axes_optimized"
+                    used_names = set(graph.initializers.keys())
+                    for any_node in graph:
+                        for any_val in list(_node_inputs(any_node)) + list(
+                            _node_outputs(any_node)
+                        ):
+                            any_name = _v_name(any_val) if any_val is not None else None
+                            if any_name:
+                                used_names.add(any_name)
+                    for any_val in list(graph.inputs) + list(graph.outputs):
+                        any_name = _v_name(any_val)
+                        if any_name:
+                            used_names.add(any_name)
+                    while axes_name in used_names:
+                        axes_name += "_"
                     new_axes_val = ir.Value(
-                        name=f"{reducer.name or 'reduce'}_axes_optimized",
+                        name=axes_name,
                         shape=ir.Shape((len(new_axes),)),
                         type=ir.TensorType(ir.DataType.INT64),
                     )
